@@ -97,7 +97,7 @@ impl ToTokens for Declaration<'_> {
             // This is NOT mutable, as it will be declared mutable only temporarily.
             quote!(let mut #ident: #ty = ::darling::export::Default::default();)
         } else {
-            quote!(let mut #ident: (bool, ::darling::export::Option<#ty>) = (false, None);)
+            quote!(let mut #ident: (bool, ::darling::export::Option<#ty>) = (false, ::darling::export::None);)
         });
 
         // The flatten field additionally needs a place to buffer meta items
@@ -107,7 +107,7 @@ impl ToTokens for Declaration<'_> {
         // be possible for this to shadow another declaration.
         if field.flatten {
             tokens.append_all(quote! {
-                let mut __flatten: Vec<::darling::ast::NestedMeta> = vec![];
+                let mut __flatten: ::darling::export::Vec<::darling::ast::NestedMeta> = ::darling::export::Vec::new();
             });
         }
     }
@@ -169,7 +169,7 @@ impl ToTokens for MatchArm<'_> {
             // we use the local variable `len` here because location is accessed via
             // a closure, and the borrow checker gets very unhappy if we try to immutably
             // borrow `#ident` in that closure when it was declared `mut` outside.
-            quote!(&format!("{}[{}]", #name_str, __len))
+            quote!(&::darling::export::format!("{}[{}]", #name_str, __len))
         } else {
             quote!(#name_str)
         };
@@ -231,7 +231,7 @@ impl ToTokens for Initializer<'_> {
                 quote!(#ident: #ident)
             }
         } else if let Some(ref expr) = field.default_expression {
-            quote_spanned!(expr.span()=> #ident: if let Some(__val) = #ident.1 {
+            quote_spanned!(expr.span()=> #ident: if let ::darling::export::Some(__val) = #ident.1 {
                 __val
             } else {
                 #expr
